@@ -94,7 +94,15 @@ def _verify(item):
         out['paths'] = len(outs)
         out['functions'] = sorted(ex.functions_read)
 
+        failing = []      # (pc + negated goal) of every VC that is not discharged, in order
+
         def prove(hyp, goal):
+            v_ = _prove(hyp, goal)
+            if v_ != 'unsat':
+                failing.append((list(hyp[len(hyps):]), goal))
+            return v_
+
+        def _prove(hyp, goal):
             # (1) E-matching only (fast on these VCs), (2) z3 default (MBQI) as second opinion
             verdict = 'unknown'
             for cfg in ('ematching', 'default'):
@@ -156,6 +164,51 @@ def _verify(item):
                 if meth in ('disconnect_source', 'disconnect'):
                     out['obligations'].append((f'path {n_out}: a real stream has no source afterwards',
                                                prove(base, z3.Implies(sel(h0.kind, S) == H.STREAM, sel(h1.source, S) == 0))))
+        # ---- finite-domain models: (a) cross-check of the symbolic heap semantics on a sampled pre-state,
+        #      (b) replay of every obligation that is not discharged
+        from engine.vcg import heap_native as HN
+        plain_wf0 = [c for _, c in H.WF(h0)]
+        arg_consts = [self_] + [info[k] for k in info]
+        NDOM = 9
+
+        def sample(extra):
+            m = HN.find_model(plain_wf0 + pre + extra, arg_consts, h0, N=NDOM, timeout_ms=max(20000, TIMEOUT_MS // 2))
+            if m is None: return None
+            vals = {'self': HN._val(m, self_)}
+            for k_, c_ in info.items(): vals[k_] = HN._val(m, c_)
+            return HN.extract(m, h0, NDOM), vals
+        all_proved = all(v == 'unsat' for _, v in out['obligations'])
+        L = sel(h0.llen, self_)
+        variants = [[], [L >= 2], [L >= 1, sel(h0.fixed, self_)], [L >= 1, z3.Not(sel(h0.fixed, self_))]]
+        if 'index' in info: variants += [[info['index'] < L, L >= 2], [info['index'] >= L]]
+        if 'stream' in info:
+            variants += [[sel(getattr(h0, side), info['stream']) != 0, sel(getattr(h0, side), info['stream']) != sel(getattr(h0, side), self_)],
+                         [sel(h0.kind, info['stream']) == H.MISSING]]
+        out['cross_checks'] = []
+        for extra_ in variants:
+            try:
+                smp = sample(extra_)
+                if smp is None: continue
+                nat = native_run(cls, meth, params, smp[0], smp[1])
+                out['cross_checks'].append({'inputs': smp[1], 'objects': len(smp[0]), **nat})
+                ok_exc = nat['exception'] in (None, 'IndexError', 'RuntimeError')
+                if not nat['wf_pre'] and all_proved and (nat['wf_post'] or nat['effects_failed'] or not ok_exc):
+                    out['obligations'].append(('cross-check: native run of a sampled well-formed pre-state keeps WF', 'sat'))
+                    out['replays'] = out.get('replays', []) + [{'clause': 'cross-check', 'heap': smp[0], 'inputs': smp[1], 'native': nat}]
+                    break
+            except Exception as e:
+                out['cross_checks'].append({'error': f'{type(e).__name__}: {e}'})
+        names_failing = [nm for nm, v in out['obligations'] if v != 'unsat' and not nm.startswith('cross-check')]
+        for nm, (pc_, goal_) in zip(names_failing, failing):
+            try:
+                smp = sample(pc_ + [z3.Not(goal_)])
+                if smp is None: continue
+                nat = native_run(cls, meth, params, smp[0], smp[1])
+                broke = bool(nat['wf_post'] or nat['effects_failed'] or nat['exception'] not in (None, 'IndexError', 'RuntimeError'))
+                if not nat['wf_pre'] and broke:
+                    out['replays'] = out.get('replays', []) + [{'clause': nm, 'heap': smp[0], 'inputs': smp[1], 'native': nat}]
+            except Exception as e:
+                out.setdefault('replay_errors', []).append(f'{nm}: {type(e).__name__}: {e}')
         for oname, pc, cond in ex.side_obligations:
             out['obligations'].append((f'internal: {oname}', prove(hyps + pc, cond)))
         if n_ret == 0:
@@ -171,6 +224,42 @@ def _verify(item):
     except Exception as e:
         out['error'] = f'{type(e).__name__}: {e}\n{traceback.format_exc()[-1200:]}'
     out['wall_s'] = time.time() - t0
+    return out
+
+
+def native_run(cls, meth, params, objs, vals):
+    """Run the real method on real objects built from a heap description.  Returns dict with WF before/after and effects."""
+    import thermosteam  # noqa
+    from engine.vcg import heap_native as HN
+    nw = sys.modules['thermosteam.network']
+    real = HN.build(objs)
+    recv = real[vals['self']]
+    args = []
+    for p in params:
+        args.append(vals[p] if p == 'index' else real[vals[p]])
+    uni0 = HN.reachable(list(real.values()))
+    out = {'wf_pre': HN.wf_native(uni0), 'exception': None}
+    side = '_sink' if cls == 'Inlets' else '_source'
+    try:
+        if meth == '__setitem__': recv[args[0]] = args[1]; ret = None
+        else: ret = getattr(recv, meth)(*args)
+    except Exception as e:
+        out['exception'] = type(e).__name__
+        ret = None
+    uni1 = HN.reachable(list(real.values()) + ([ret] if ret is not None and not isinstance(ret, int) else []))
+    out['wf_post'] = HN.wf_native(uni1)
+    eff = []
+    if out['exception'] is None and cls in ('Inlets', 'Outlets'):
+        owner = getattr(recv, side)
+        if meth in ('append', 'insert', '__setitem__', 'replace') and 'stream' in vals:
+            st = real[vals['stream']]
+            if not any(st is t for t in recv._streams): eff.append('the stream is listed in the port list afterwards')
+            if getattr(st, side) is not owner: eff.append(f"the stream's {side[1:]} is the owning unit")
+        gone = ret if meth == 'pop' else (real[vals['member']] if 'member' in vals else None)
+        if gone is not None and meth in ('pop', 'remove', 'replace'):
+            if any(gone is t for t in recv._streams): eff.append('the stream that left is no longer listed')
+            if getattr(gone, side) is not None: eff.append(f'the stream that left has no {side[1:]}')
+    out['effects_failed'] = eff
     return out
 
 
